@@ -31,7 +31,7 @@ def mk(mps, big):
 
 def targets(tier):
     small = [2, 3, 4] if tier == "quick" else [1, 2, 3, 4, 5, 6, 7, 8]
-    big = [200, 512, 1024] if tier == "quick" else [7, 64, 200, 512, 1000, 1024]
+    big = [200, 512, 1024] if tier == "quick" else [13, 64, 200, 512, 1000, 1024]
     return [mk(m, False) for m in small] + [mk(m, True) for m in big]
 
 
